@@ -109,7 +109,7 @@ inductive Op | P | Q | A | R
 
 inductive PC
   | pLock (q : Bool) | pPark (q : Bool) | pWait (q : Bool) | pWake (q : Bool) | pUnlock (q : Bool)
-  | uLock | uUnlock
+  | uLock (e : Nat) | uUnlock (e : Nat)
   | aLock | aUnlock
   | rLock | rPark (b : Bool) | rWait (b : Bool) | rWake (b : Bool) | rUnlock
   | xLock | xUnlock
@@ -125,7 +125,9 @@ structure Th where
 (the borrow the code comment of `unaddPoller` describes). Ghost fields (not read by the code):
 `out` = polls outstanding by the observable bookkeeping (returned `waitAndAddPoller` not yet followed by
 the return of its `unaddPoller` or of an `AllowRebalance`), `fill` = threads between the return of
-`waitAndAddPoller` and the return of their `unaddPoller`, `viol` = an `AllowRebalance` returned while `fill > 0`. -/
+`waitAndAddPoller` and the return of their `unaddPoller`, `viol` = an `AllowRebalance` returned while `fill > 0`,
+`ep` = number of `AllowRebalance` returns so far; a thread in its fill remembers the `ep` of its `padd` (the
+parameter of `uLock`/`uUnlock`): its `unadd` removes its poll from `out` only if no `allow` cleared it meanwhile. -/
 structure Sh where
   mu : Bool := false
   pollers : Nat := 0
@@ -134,6 +136,7 @@ structure Sh where
   out : Nat := 0
   fill : Nat := 0
   viol : Bool := false
+  ep : Nat := 0
   deriving DecidableEq, Repr
 
 /-- Start of the next client operation (the thread runs up to its first `Lock`). -/
@@ -166,13 +169,13 @@ def stepT (sh : Sh) (t : Th) : Option (Sh × Th × Bool × String) :=
   | .pWait _ => none
   | .pWake q => if sh.mu then none else some (pollerRewake sh q t.prog)
   | .pUnlock q =>
-    if q then some ({ sh with mu := false, out := sh.out + 1, fill := sh.fill + 1 }, ⟨.uLock, t.prog⟩, false, ":padd")
+    if q then some ({ sh with mu := false, out := sh.out + 1, fill := sh.fill + 1 }, ⟨.uLock sh.ep, t.prog⟩, false, ":padd")
     else some ({ sh with mu := false, out := sh.out + 1 }, start t.prog, false, ":padd")
-  | .uLock => if sh.mu then none else
-      some ({ sh with mu := true, pollers := if sh.pollers > 0 then sh.pollers - 1 else sh.pollers }, ⟨.uUnlock, t.prog⟩, true, "")
-  | .uUnlock => some ({ sh with mu := false, out := sh.out - 1, fill := sh.fill - 1 }, start t.prog, false, ":unadd")
+  | .uLock e => if sh.mu then none else
+      some ({ sh with mu := true, pollers := if sh.pollers > 0 then sh.pollers - 1 else sh.pollers }, ⟨.uUnlock e, t.prog⟩, true, "")
+  | .uUnlock e => some ({ sh with mu := false, out := if e = sh.ep then sh.out - 1 else sh.out, fill := sh.fill - 1 }, start t.prog, false, ":unadd")
   | .aLock => if sh.mu then none else some ({ sh with mu := true, pollers := 0 }, ⟨.aUnlock, t.prog⟩, true, "")
-  | .aUnlock => some ({ sh with mu := false, out := 0, viol := sh.viol || decide (sh.fill > 0) }, start t.prog, false, ":allow")
+  | .aUnlock => some ({ sh with mu := false, out := 0, ep := sh.ep + 1, viol := sh.viol || decide (sh.fill > 0) }, start t.prog, false, ":allow")
   | .rLock => if sh.mu then none else some (rebalLoop { sh with rebal := sh.rebal + 1 } false t.prog)
   | .rPark b => some ({ sh with mu := false }, ⟨.rWait b, t.prog⟩, false, "")
   | .rWait _ => none
